@@ -68,3 +68,113 @@ Theorem C10_leak_fails_the_run :
                     Forall (fun x => ir_result x = IterDone) front.
 Proof. exact first_failure_is_result. Qed.
 Print Assumptions C10_leak_fails_the_run.
+
+(* ==== appended by tools/mkprops.py (APPEND table) ==== *)
+
+Require Import LV.Base LV.VV LV.VVFacts LV.Path LV.PathSpec LV.PathTerm LV.PathDistinct LV.PathApi LV.Prog LV.Objects LV.Exec LV.Atomic LV.Ops LV.Check LV.CheckFacts LV.SyncFacts LV.ExecFacts LV.SyncMono LV.CountFacts LV.DeadlockFacts LV.LeakFacts.
+
+(* The leak check against the harness-level truth, for whole iterations (LeakFacts.v) *)
+(* EXACT: an iteration ends with a leak panic iff its run finished and the leak scan of the final objects finds that entry first; no micro-step and no run ever raises it *)
+Theorem C10_iteration_leak_iff :
+  forall (fuel : nat) (p : prog) (pa : path) (e : exec) (k : leak_kind) (i : nat),
+       iteration fuel p pa = (e, IterPanic (PanicLeak k i)) <->
+       run fuel (init_exec p pa) = (e, IterDone) /\
+       check_for_leaks (e_objects e) = Some (PanicLeak k i).
+Proof. exact iteration_leak_iff. Qed.
+Print Assumptions C10_iteration_leak_iff.
+
+(* after a failure the leak check is not run *)
+Theorem C10_iteration_after_panic :
+  forall (fuel : nat) (p : prog) (pa : path) (e : exec) (pn : panic),
+       run fuel (init_exec p pa) = (e, IterPanic pn) -> iteration fuel p pa = (e, IterPanic pn).
+Proof. exact iteration_after_panic. Qed.
+Print Assumptions C10_iteration_after_panic.
+
+(* finished disciplined iteration: Arc k is reported iff one of its handles is still alive (no drop is in flight at the end: proved) *)
+Theorem C10_arc_leak_iff :
+  forall (fuel : nat) (p : prog) (pa : path) (e : exec),
+       run fuel (init_exec p pa) = (e, IterDone) ->
+       forall k : nat,
+       run_disc fuel (init_exec p pa) = true ->
+       nth_error (p_decls p) k = Some DArc ->
+       exists s : arc_state,
+         nth_error (e_objects e) k = Some (OArc s) /\
+         arc_cnt s = live e k /\
+         pend e k = 0 /\ leak_at e k = (if live e k =? 0 then None else Some LArc).
+Proof. exact arc_leak_iff. Qed.
+Print Assumptions C10_arc_leak_iff.
+
+(* a channel is reported iff its runtime message count is positive, which is the length of the std queue while the receiver lives *)
+Theorem C10_chan_leak_iff :
+  forall (fuel : nat) (p : prog) (pa : path) (e : exec),
+       run fuel (init_exec p pa) = (e, IterDone) ->
+       forall h : nat,
+       nth_error (p_decls p) h = Some DChan ->
+       exists s : chan_state,
+         nth_error (e_objects e) h = Some (OChannel s) /\
+         msgs e h = ch_cnt s /\
+         leak_at e h = (if msgs e h =? 0 then None else Some LMsgs) /\
+         (if ho_rx (get_h e h) then msgs e h = length (ho_q (get_h e h)) else ho_q (get_h e h) = []).
+Proof. exact chan_leak_iff. Qed.
+Print Assumptions C10_chan_leak_iff.
+
+(* a tracked allocation is reported iff it was never dropped *)
+Theorem C10_track_leak_iff :
+  forall (fuel : nat) (p : prog) (pa : path) (e : exec),
+       run fuel (init_exec p pa) = (e, IterDone) ->
+       forall k : nat,
+       nth_error (p_decls p) k = Some DTrack ->
+       nth_error (e_objects e) k = Some (OAlloc (negb (ho_track (get_h e k)))) /\
+       leak_at e k = (if ho_track (get_h e k) then Some LAlloc else None).
+Proof. exact track_leak_iff. Qed.
+Print Assumptions C10_track_leak_iff.
+
+(* an iteration finishes normally iff nothing declared leaks (and no block_on waker clone is left registered) *)
+Theorem C10_iteration_done_iff :
+  forall (fuel : nat) (p : prog) (pa : path) (e : exec),
+       run fuel (init_exec p pa) = (e, IterDone) ->
+       run_disc fuel (init_exec p pa) = true ->
+       iteration fuel p pa = (e, IterDone) <->
+       (forall k : nat, k < length (p_decls p) -> hleak p e k = None) /\ dyn_arcs_released p e.
+Proof. exact iteration_done_iff. Qed.
+Print Assumptions C10_iteration_done_iff.
+
+(* every true leak is reported (at that entry or an earlier leaking one) *)
+Theorem C10_true_leak_is_reported :
+  forall (fuel : nat) (p : prog) (pa : path) (e : exec),
+       run fuel (init_exec p pa) = (e, IterDone) ->
+       forall (k : nat) (kd : leak_kind),
+       run_disc fuel (init_exec p pa) = true ->
+       k < length (p_decls p) ->
+       hleak p e k = Some kd ->
+       exists (kd' : leak_kind) (i : nat),
+         i <= k /\ iteration fuel p pa = (e, IterPanic (PanicLeak kd' i)).
+Proof. exact true_leak_is_reported. Qed.
+Print Assumptions C10_true_leak_is_reported.
+
+(* every reported leak is true and is the first one in object order *)
+Theorem C10_leak_reported_is_true :
+  forall (fuel : nat) (p : prog) (pa : path) (e : exec),
+       run fuel (init_exec p pa) = (e, IterDone) ->
+       forall (kd : leak_kind) (i : nat),
+       run_disc fuel (init_exec p pa) = true ->
+       iteration fuel p pa = (e, IterPanic (PanicLeak kd i)) ->
+       (forall j : nat, j < i -> j < length (p_decls p) -> hleak p e j = None) /\
+       (forall (j : nat) (s : arc_state),
+        j < i ->
+        length (p_decls p) <= j -> nth_error (e_objects e) j = Some (OArc s) -> arc_cnt s = 0) /\
+       (i < length (p_decls p) /\ hleak p e i = Some kd \/
+        length (p_decls p) <= i /\
+        kd = LArc /\
+        (exists s : arc_state, nth_error (e_objects e) i = Some (OArc s) /\ arc_cnt s <> 0)).
+Proof. exact leak_reported_is_true. Qed.
+Print Assumptions C10_leak_reported_is_true.
+
+(* witness (computed) of the behaviour repaired by the fix commit for mpsc: see known_findings.json *)
+Theorem C10_send_after_drop_reported :
+  snd (iteration 1000 p_send_after_drop (initial_path cfgK)) = IterPanic (PanicLeak LMsgs 0) /\
+       rev (e_log e_sad) = [LOp 0 0 RUnit; LOp 0 1 RDisc] /\
+       ho_rx (get_h e_sad 0) = false /\ ho_q (get_h e_sad 0) = [] /\ msgs e_sad 0 = 1.
+Proof. exact send_after_drop_reported. Qed.
+Print Assumptions C10_send_after_drop_reported.
+
